@@ -68,10 +68,10 @@ def _prune(prefix, keep=2):
             pass
 
 
-def tlc_cached(ctx, module, cfg, timeout=3000, tag=None, workers=None, min_exports=100):
+def tlc_cached(ctx, module, cfg, timeout=3000, tag=None, workers=None, min_exports=100, simulate=None, depth=None):
     """Design check + export of a generator module, cached by specification content."""
     os.makedirs(CACHE, exist_ok=True)
-    key = _sha(_spec_files(module) + [os.path.join(SPECS, cfg)], module + cfg)
+    key = _sha(_spec_files(module) + [os.path.join(SPECS, cfg)], module + cfg + ("|sim=%s,%s,%s" % (simulate, depth, ctx.seed) if simulate else ""))
     path = os.path.join(CACHE, "tlc_%s_%s.out" % (os.path.basename(cfg), key))
     if os.path.exists(path) and os.environ.get("VERIF_NOCACHE") != "1":
         r = TLCResult(path, 0, 0.0)
@@ -81,7 +81,7 @@ def tlc_cached(ctx, module, cfg, timeout=3000, tag=None, workers=None, min_expor
                                      generated=r.generated, distinct=r.distinct, depth=r.depth, wall_s=0.0,
                                      violated=None, error=None))
             return r
-    r = ctx.tlc_design(module, cfg, timeout=timeout, tag=tag, workers=workers)
+    r = ctx.tlc_design(module, cfg, timeout=timeout, tag=tag, workers=workers, simulate=simulate, depth=depth)
     if r.nexports < min_exports:
         raise Infra("export of %s/%s unexpectedly small: %d" % (module, cfg, r.nexports))
     tmp = path + ".tmp%d" % os.getpid()
@@ -137,17 +137,21 @@ def run_forks(ctx, cfg, epochs=(100, 2), timeout=3000):
 # casper family: (cfg name, N, Me (99 = the node's key is not a validator), stride quick, stride thorough)
 CASPER_CFGS = {
     "quick": [("cfg/CasperGen.n1.quick.cfg", 1, 0, 1), ("cfg/CasperGen.n3me.quick.cfg", 3, 0, 1),
-              ("cfg/CasperGen.n3ext.quick.cfg", 3, 99, 4)],
+              ("cfg/CasperGen.n3ext.quick.cfg", 3, 99, 4), ("cfg/CasperGen.deep.cfg", 4, 0, 1, 12, 90)],
     "thorough": [("cfg/CasperGen.n1.thorough.cfg", 1, 0, 1), ("cfg/CasperGen.n3me.thorough.cfg", 3, 0, 1),
-                 ("cfg/CasperGen.n3ext.thorough.cfg", 3, 99, 1), ("cfg/CasperGen.n4byz.thorough.cfg", 4, 99, 1)],
+                 ("cfg/CasperGen.n3ext.thorough.cfg", 3, 99, 1), ("cfg/CasperGen.n4byz.thorough.cfg", 4, 99, 1),
+                 ("cfg/CasperGen.deep.cfg", 4, 0, 1, 400, 90)],
 }
 
 
 def run_casper(ctx, timeout=6000):
     b = ctx.build("casper")
     out = dict(tlc=[], cases=0, calls=0, distinct=0, samples=[], other=0, states=0, transitions=0, configs=[])
-    for cfg, n, me, stride in CASPER_CFGS[ctx.tier]:
-        r = tlc_cached(ctx, "chain/CasperGen", cfg, timeout=timeout, tag="casper N=%d Me=%d" % (n, me), workers=NCPU)
+    for ent in CASPER_CFGS[ctx.tier]:
+        cfg, n, me, stride = ent[:4]
+        sim, depth = (ent[4], ent[5]) if len(ent) > 4 else (None, None)   # random deep walks: behaviours per worker, depth
+        r = tlc_cached(ctx, "chain/CasperGen", cfg, timeout=timeout, tag="casper N=%d Me=%d%s" % (n, me, " (simulation)" if sim else ""),
+                       workers=8 if sim else NCPU, simulate=sim, depth=depth, min_exports=20 if sim else 100)
         h = replay_cached(ctx, b, [str(n), str(me), str(stride)], r.path, timeout=timeout)
         s = h["summary"]
         want = (r.nexports + stride - 1) // stride
@@ -168,9 +172,9 @@ def run_casper(ctx, timeout=6000):
 
 # ledger family: (cfg, stride quick) per tier
 LEDGER_CFGS = {
-    "quick": [("cfg/LedgerGen.quick.cfg", 8), ("cfg/LedgerGen.pool.quick.cfg", 4), ("cfg/LedgerGen.vote.quick.cfg", 24)],
+    "quick": [("cfg/LedgerGen.quick.cfg", 8), ("cfg/LedgerGen.pool.quick.cfg", 4), ("cfg/LedgerGen.vote.quick.cfg", 24), ("cfg/LedgerGen.contract.quick.cfg", 96)],
     "thorough": [("cfg/LedgerGen.quick.cfg", 1), ("cfg/LedgerGen.pool.quick.cfg", 1), ("cfg/LedgerGen.vote.quick.cfg", 1),
-                 ("cfg/LedgerGen.thorough.cfg", 8)],
+                 ("cfg/LedgerGen.thorough.cfg", 8), ("cfg/LedgerGen.contract.quick.cfg", 4)],
 }
 
 
